@@ -1,8 +1,11 @@
 /-
-C17 — latest-version selection: property theorems.
+C17 — property theorems: latest-version selection is a maximum; file names round-trip (`roundtrip`).
 -/
 import DebInspector.Props.C17
 import DebInspector.Proofs.VersionOrder
+import DebInspector.Proofs.SplitJoin
+import DebInspector.Proofs.VersionParse
+import DebInspector.Proofs.VersionPrint
 
 namespace Props.C17
 open Py Spec Spec.VerOrder PadLex Model.Version Model.Package Proofs.VersionOrder
@@ -194,5 +197,349 @@ theorem last_is_max (n : Str) (l s : List Archive) (m : Archive) (hg : Good n l)
   · have : a = m := by simpa using h1
     subst this
     exact vle_refl a a (hg a ha).2 rfl
+
+end Props.C17
+
+/-! ## file names -/
+
+namespace Props.C17
+open Py Spec Model.Package Model.Version Proofs.VersionParse Proofs.VersionPrint
+
+/-! ### suffix tests on `stem ++ ending` -/
+
+theorem startsWith_append_short (w x q : Str) (h : q.length ≤ w.length) :
+    startsWith (w ++ x) q = startsWith w q := by
+  induction q generalizing w with
+  | nil => cases w <;> cases x <;> rfl
+  | cons c cs ih =>
+    cases w with
+    | nil => simp at h
+    | cons d ds =>
+      simp only [List.cons_append, startsWith]
+      rw [ih ds (by simpa using h)]
+
+theorem endsWith_append_short (s w q : Str) (h : q.length ≤ w.length) : endsWith (s ++ w) q = endsWith w q := by
+  unfold endsWith
+  rw [List.reverse_append, startsWith_append_short _ _ _ (by simpa using h)]
+
+theorem startsWith_self_append (w x : Str) : startsWith (w ++ x) w = true := by
+  induction w with
+  | nil => cases x <;> rfl
+  | cons c cs ih => simp [startsWith, ih]
+
+theorem endsWith_append_self (s w : Str) : endsWith (s ++ w) w = true := by
+  unfold endsWith
+  rw [List.reverse_append]
+  exact startsWith_self_append _ _
+
+theorem endsWithAny_short (s w : Str) (sufs : List String) (h : ∀ q ∈ sufs, q.toList.length ≤ w.length) :
+    endsWithAny (s ++ w) sufs = endsWithAny w sufs := by
+  unfold endsWithAny
+  induction sufs with
+  | nil => rfl
+  | cons q qs ih =>
+    simp only [List.any_cons]
+    rw [endsWith_append_short s w q.toList (h q (by simp)), ih (fun x hx => h x (by simp [hx]))]
+
+theorem endsWithAny_mem (s w : Str) (sufs : List String) (q : String) (hq : q ∈ sufs) (hw : q.toList = w) :
+    endsWithAny (s ++ w) sufs = true := by
+  unfold endsWithAny
+  rw [List.any_eq_true]
+  exact ⟨q, hq, by rw [hw]; exact endsWith_append_self s w⟩
+
+/-! ### `rpartition` for a multi-character separator -/
+
+theorem rpartitionStr_none (sep t : Str) (h : ∀ k, startsWith (t.drop k) sep = false) : rpartitionStr sep t = none := by
+  induction t with
+  | nil => rfl
+  | cons c cs ih =>
+    have h0 := h 0
+    simp only [List.drop_zero] at h0
+    have hcs : ∀ k, startsWith (cs.drop k) sep = false := fun k => by simpa using h (k + 1)
+    simp [rpartitionStr, ih hcs, h0]
+
+theorem rpartitionStr_last (sep a b : Str) (hne : sep ≠ [])
+    (h : ∀ k, startsWith ((sep ++ b).drop (k + 1)) sep = false) :
+    rpartitionStr sep (a ++ (sep ++ b)) = some (a, b) := by
+  induction a with
+  | nil =>
+    cases hs : sep ++ b with
+    | nil => cases sep <;> simp_all
+    | cons c cs =>
+      have hcs : ∀ k, startsWith (cs.drop k) sep = false := fun k => by
+        have := h k; rw [hs] at this; simpa using this
+      have hst : startsWith (c :: cs) sep = true := by rw [← hs]; exact startsWith_self_append sep b
+      have hd : (c :: cs).drop sep.length = b := by rw [← hs]; simp
+      simp [rpartitionStr, rpartitionStr_none sep cs hcs, hst, hd]
+  | cons c cs ih => simp [rpartitionStr, ih]
+
+
+/-! ### accepted versions -/
+
+theorem valid_verChar (v : Str) (h : Policy.valid v = true) : ∀ c ∈ v, verChar c = true := by
+  simp only [Policy.valid, Policy.splitEpoch, Bool.and_eq_true] at h
+  obtain ⟨hve, hvr⟩ := h
+  have hs := partitionChar_spec ':' v
+  simp only at hs
+  obtain ⟨_, h2, h3⟩ := hs
+  have restChars : ∀ rest : Str, Policy.validRest rest = true → ∀ c ∈ rest, verChar c = true := by
+    intro rest hr c hc
+    simp only [Policy.validRest, Policy.splitRevision, Bool.and_eq_true] at hr
+    have hsr := rpartitionChar_spec '-' rest
+    simp only at hsr
+    by_cases hf : (rpartitionChar '-' rest).2.1 = true
+    · simp only [hf, if_true] at hr
+      obtain ⟨⟨_, hu⟩, hrev⟩ := hr
+      simp only [Bool.and_eq_true, List.all_eq_true] at hrev
+      have e := (hsr.1 hf).1
+      rw [e] at hc
+      simp only [List.mem_append, List.mem_cons] at hc
+      rcases hc with hc | hc | hc
+      · simp [verChar, List.all_eq_true.mp hu c hc]
+      · subst hc; decide
+      · simp [verChar, revChar_upChar (hrev.2 c hc)]
+    · have hf' : (rpartitionChar '-' rest).2.1 = false := by simpa using hf
+      simp only [hf', Bool.false_eq_true, if_false] at hr
+      simp [verChar, List.all_eq_true.mp hr.1.2 c hc]
+  intro c hc
+  by_cases hf : (partitionChar ':' v).2.1 = true
+  · simp only [hf, if_true] at hve hvr
+    have e := h2 hf
+    rw [e] at hc
+    simp only [List.mem_append, List.mem_cons] at hc
+    simp only [Policy.validEpoch, Bool.and_eq_true, List.all_eq_true] at hve
+    rcases hc with hc | hc | hc
+    · simp [verChar, digit_upChar (hve.2 c hc)]
+    · subst hc; decide
+    · exact restChars _ hvr c hc
+  · have hf' : (partitionChar ':' v).2.1 = false := by simpa using hf
+    simp only [hf', Bool.false_eq_true, if_false] at hvr
+    exact restChars _ hvr c hc
+
+theorem verChar_ne {c : Char} (h : verChar c = true) : c ≠ '_' ∧ c ≠ '/' := by
+  constructor <;> (intro e; subst e; revert h; decide)
+
+/-- an accepted version parses to dpkg's decomposition of it -/
+theorem accepted_fromString (v : Str) (h : accepted v = true) :
+    ∃ w, fromString v = .ok w ∧ (w.epoch, w.upstream, w.revision) = Policy.split v := by
+  have hvalid : Policy.valid v = true := by
+    simp only [accepted, Policy.mustAccept, Bool.and_eq_true] at h
+    exact h.1.1.1
+  have hstrip : strip v = v := strip_id (fun c hc => verChar_not_space (valid_verChar v hvalid c hc))
+  obtain ⟨w, hw⟩ := mustAccept_fromString v (by rw [hstrip]; exact h)
+  have := (fromString_ok v w hw).2
+  rw [hstrip] at this
+  exact ⟨w, hw, this⟩
+
+
+/-! ### the recognised endings -/
+
+theorem splitext_dot (stem e : Str) (hus : '_' ∈ stem) (he : '.' ∉ e) :
+    splitext (stem ++ '.' :: e) = (stem, '.' :: e) := by
+  unfold splitext
+  rw [rpartitionChar_split '.' stem e he]
+  have : stem.all (· = '.') = false := by
+    cases h : stem.all (· = '.') with
+    | false => rfl
+    | true =>
+      have := List.all_eq_true.mp h '_' hus
+      simp at this
+  simp [this]
+
+/-- `.deb`, `.udeb`, `.dsc`: the extension is split off at the last dot -/
+theorem known_class0 (stem e : Str) (hus : '_' ∈ stem) (he : '.' ∉ e)
+    (hmem : String.ofList ('.' :: e) ∈ tupleAt 0) : knownBasename (stem ++ '.' :: e) = some stem := by
+  unfold knownBasename
+  rw [endsWithAny_mem stem ('.' :: e) (tupleAt 0) _ hmem (by simp)]
+  simp [splitext_dot stem e hus he]
+
+/-- `_copyright`, `_changelog`: cut at the last underscore -/
+theorem known_class1 (stem w : Str) (hw : '_' ∉ w)
+    (h0 : endsWithAny ('_' :: w) (tupleAt 0) = false) (hl0 : ∀ q ∈ tupleAt 0, q.toList.length ≤ ('_' :: w).length)
+    (hmem : String.ofList ('_' :: w) ∈ tupleAt 1) : knownBasename (stem ++ '_' :: w) = some stem := by
+  unfold knownBasename
+  rw [endsWithAny_short stem ('_' :: w) (tupleAt 0) hl0, h0]
+  simp only [Bool.false_eq_true, if_false]
+  rw [endsWithAny_mem stem ('_' :: w) (tupleAt 1) _ hmem (by simp)]
+  simp [rpartitionChar_split '_' stem w hw]
+
+/-- `.orig.tar.gz` …: cut at the last `.tar.`, then split off `.orig` / `.debian` -/
+theorem known_class2 (stem m z : Str) (hus : '_' ∈ stem) (hm : '.' ∉ m)
+    (h0 : endsWithAny ('.' :: m ++ ".tar.".toList ++ z) (tupleAt 0) = false)
+    (hl0 : ∀ q ∈ tupleAt 0, q.toList.length ≤ ('.' :: m ++ ".tar.".toList ++ z).length)
+    (h1 : endsWithAny ('.' :: m ++ ".tar.".toList ++ z) (tupleAt 1) = false)
+    (hl1 : ∀ q ∈ tupleAt 1, q.toList.length ≤ ('.' :: m ++ ".tar.".toList ++ z).length)
+    (h2 : endsWithAny ('.' :: m ++ ".tar.".toList ++ z) (tupleAt 2) = true)
+    (hl2 : ∀ q ∈ tupleAt 2, q.toList.length ≤ ('.' :: m ++ ".tar.".toList ++ z).length)
+    (hlast : ∀ k, startsWith ((".tar.".toList ++ z).drop (k + 1)) ".tar.".toList = false)
+    (h3 : (tupleAt 3).any (fun t => t.toList = '.' :: m) = true) :
+    knownBasename (stem ++ ('.' :: m ++ ".tar.".toList ++ z)) = some stem := by
+  unfold knownBasename
+  rw [endsWithAny_short stem _ (tupleAt 0) hl0, h0, endsWithAny_short stem _ (tupleAt 1) hl1, h1,
+    endsWithAny_short stem _ (tupleAt 2) hl2, h2]
+  simp only [Bool.false_eq_true, if_false, if_true]
+  have e : stem ++ ('.' :: m ++ ".tar.".toList ++ z) = (stem ++ '.' :: m) ++ (".tar.".toList ++ z) := by
+    simp [List.append_assoc]
+  rw [e, rpartitionStr_last ".tar.".toList (stem ++ '.' :: m) z (by decide) hlast]
+  simp only [splitext_dot stem m hus hm, h3, if_true]
+
+
+theorem no_later (t sep : Str) (hne : sep ≠ [])
+    (h : (List.range t.length).all (fun k => !startsWith (t.drop (k + 1)) sep) = true) :
+    ∀ k, startsWith (t.drop (k + 1)) sep = false := by
+  intro k
+  by_cases hk : k < t.length
+  · have := List.all_eq_true.mp h k (by simpa using hk)
+    simpa using this
+  · have : t.drop (k + 1) = [] := List.drop_eq_nil_of_le (by omega)
+    rw [this]
+    cases sep with
+    | nil => exact absurd rfl hne
+    | cons c cs => rfl
+
+theorem ofList_eq {l : Str} {s : String} (h : String.ofList l = s) : l = s.toList := by
+  have := congrArg String.toList h
+  simpa using this
+
+/-- every ending of the property is recognised and peeled off exactly -/
+theorem known_ending (ending stem : Str) (hus : '_' ∈ stem)
+    (hE : String.ofList ending ∈ binaryEndings ++ sourceEndings) :
+    knownBasename (stem ++ ending) = some stem ∧ '/' ∉ ending := by
+  simp only [binaryEndings, sourceEndings, List.cons_append, List.nil_append, List.mem_cons, List.not_mem_nil,
+    or_false] at hE
+  rcases hE with h | h | h | h | h | h | h | h | h | h | h | h | h <;> (have e := ofList_eq h; subst e)
+  · exact ⟨known_class0 stem "deb".toList hus (by decide) (by decide), by decide⟩
+  · exact ⟨known_class0 stem "udeb".toList hus (by decide) (by decide), by decide⟩
+  · exact ⟨known_class0 stem "dsc".toList hus (by decide) (by decide), by decide⟩
+  · exact ⟨known_class2 stem "orig".toList "gz".toList hus (by decide) (by decide) (by decide) (by decide) (by decide)
+      (by decide) (by decide) (no_later _ _ (by decide) (by decide)) (by decide), by decide⟩
+  · exact ⟨known_class2 stem "orig".toList "xz".toList hus (by decide) (by decide) (by decide) (by decide) (by decide)
+      (by decide) (by decide) (no_later _ _ (by decide) (by decide)) (by decide), by decide⟩
+  · exact ⟨known_class2 stem "orig".toList "bz2".toList hus (by decide) (by decide) (by decide) (by decide) (by decide)
+      (by decide) (by decide) (no_later _ _ (by decide) (by decide)) (by decide), by decide⟩
+  · exact ⟨known_class2 stem "orig".toList "lzma".toList hus (by decide) (by decide) (by decide) (by decide) (by decide)
+      (by decide) (by decide) (no_later _ _ (by decide) (by decide)) (by decide), by decide⟩
+  · exact ⟨known_class2 stem "debian".toList "gz".toList hus (by decide) (by decide) (by decide) (by decide) (by decide)
+      (by decide) (by decide) (no_later _ _ (by decide) (by decide)) (by decide), by decide⟩
+  · exact ⟨known_class2 stem "debian".toList "xz".toList hus (by decide) (by decide) (by decide) (by decide) (by decide)
+      (by decide) (by decide) (no_later _ _ (by decide) (by decide)) (by decide), by decide⟩
+  · exact ⟨known_class2 stem "debian".toList "bz2".toList hus (by decide) (by decide) (by decide) (by decide) (by decide)
+      (by decide) (by decide) (no_later _ _ (by decide) (by decide)) (by decide), by decide⟩
+  · exact ⟨known_class2 stem "debian".toList "lzma".toList hus (by decide) (by decide) (by decide) (by decide) (by decide)
+      (by decide) (by decide) (no_later _ _ (by decide) (by decide)) (by decide), by decide⟩
+  · exact ⟨known_class1 stem "copyright".toList (by decide) (by decide) (by decide) (by decide), by decide⟩
+  · exact ⟨known_class1 stem "changelog".toList (by decide) (by decide) (by decide) (by decide), by decide⟩
+
+
+/-! ### the round trip -/
+
+def archPart (a : Option Str) : Str := match a with | some a => '_' :: a | none => []
+
+def stemOf (i : InputA) : Str := i.name ++ '_' :: i.version ++ archPart i.arch
+
+theorem render_eq (i : InputA) : render i = i.dir ++ (stemOf i ++ i.ending) := by
+  simp [render, stemOf, archPart, List.append_assoc]
+  cases i.arch <;> simp
+
+theorem basename_dir (dir base : Str) (hd : dir.isEmpty = true ∨ lastP (· = '/') dir = true) (hb : '/' ∉ base) :
+    basename (dir ++ base) = base := by
+  unfold basename
+  rcases hd with hd | hd
+  · have : dir = [] := by simpa using hd
+    subst this
+    simp [rpartitionChar_not_mem '/' base hb]
+  · obtain ⟨a, c, hac, hc⟩ := lastP_mem hd
+    have : c = '/' := by simpa using hc
+    subst this
+    rw [hac, List.append_assoc]
+    simp [rpartitionChar_split '/' a base hb]
+
+/-- **C17, file names** — a file name built from a package name, an accepted version, (for binary
+packages) an architecture, any of the thirteen endings and any directory prefix parses to exactly
+that name, dpkg's decomposition of that version, that architecture, and keeps the original path -/
+theorem roundtrip (i : InputA) : holdsOnA i (modelA i.filename) = true := by
+  unfold holdsOnA
+  cases hw : wfA i with
+  | false => rfl
+  | true =>
+    simp only [wfA, Bool.and_eq_true, Bool.or_eq_true, Bool.not_eq_true', beq_iff_eq] at hw
+    obtain ⟨⟨⟨⟨⟨⟨hdir, hnne⟩, hnus⟩, hnsl⟩, hacc⟩, harch⟩, hfn⟩ := hw
+    obtain ⟨w, hw1, hw2⟩ := accepted_fromString i.version hacc
+    have hvalid : Policy.valid i.version = true := by
+      simp only [accepted, Policy.mustAccept, Bool.and_eq_true] at hacc
+      exact hacc.1.1.1
+    have hvch := valid_verChar i.version hvalid
+    have hvus : '_' ∉ i.version := fun hm => (verChar_ne (hvch _ hm)).1 rfl
+    have hvsl : '/' ∉ i.version := fun hm => (verChar_ne (hvch _ hm)).2 rfl
+    have hnus' : '_' ∉ i.name := by simpa using hnus
+    have hnsl' : '/' ∉ i.name := by simpa using hnsl
+    have hstem_us : '_' ∈ stemOf i := by simp [stemOf]
+    -- the ending and the architecture
+    have hEA : String.ofList i.ending ∈ binaryEndings ++ sourceEndings ∧
+        (∀ a, i.arch = some a → '_' ∉ a ∧ '/' ∉ a) := by
+      cases ha : i.arch with
+      | none =>
+        rw [ha] at harch
+        exact ⟨List.mem_append_right _ (by simpa using harch), by intro a h; cases h⟩
+      | some a =>
+        rw [ha] at harch
+        simp only [Bool.and_eq_true, Bool.not_eq_true'] at harch
+        refine ⟨List.mem_append_left _ (by simpa using harch.2), ?_⟩
+        intro a' h'
+        cases h'
+        exact ⟨by simpa using harch.1.1.1.2, by simpa using harch.1.2⟩
+    obtain ⟨hknown, hesl⟩ := known_ending i.ending (stemOf i) hstem_us hEA.1
+    have hbase_sl : '/' ∉ stemOf i ++ i.ending := by
+      intro hm
+      simp only [stemOf, archPart, List.mem_append, List.mem_cons] at hm
+      rcases hm with ((hm | hm | hm) | hm) | hm
+      · exact hnsl' hm
+      · revert hm; decide
+      · exact hvsl hm
+      · cases ha : i.arch with
+        | none => rw [ha] at hm; cases hm
+        | some a =>
+          rw [ha] at hm
+          simp only [List.mem_cons] at hm
+          rcases hm with hm | hm
+          · revert hm; decide
+          · exact (hEA.2 a ha).2 hm
+      · exact hesl hm
+    have hbn : basename i.filename = stemOf i ++ i.ending := by
+      rw [hfn, render_eq]
+      exact basename_dir _ _ (by rcases hdir with h | h; exact Or.inl h; exact Or.inr h) hbase_sl
+    have hmain : modelA i.filename = .ok (i.name, Policy.split i.version, i.arch, i.filename) := by
+      unfold modelA debFromFilename getNva
+      rw [hbn, hknown]
+      simp only
+      cases ha : i.arch with
+      | none =>
+        have hsplit : splitChar '_' (stemOf i) = [i.name, i.version] := by
+          have := splitChar_join '_' [i.name, i.version] (by simp) (by
+            intro p hp
+            simp only [List.mem_cons, List.not_mem_nil, or_false] at hp
+            rcases hp with rfl | rfl
+            · exact hnus'
+            · exact hvus)
+          simpa [stemOf, archPart, ha, join] using this
+        rw [hsplit]
+        simp only [hw1, Except.map, aTup]
+        simp [← hw2]
+      | some a =>
+        have hsplit : splitChar '_' (stemOf i) = [i.name, i.version, a] := by
+          have := splitChar_join '_' [i.name, i.version, a] (by simp) (by
+            intro p hp
+            simp only [List.mem_cons, List.not_mem_nil, or_false] at hp
+            rcases hp with rfl | rfl | rfl
+            · exact hnus'
+            · exact hvus
+            · exact (hEA.2 _ ha).1)
+          simpa [stemOf, archPart, ha, join] using this
+        rw [hsplit]
+        simp only [hw1, Except.map, aTup]
+        simp [← hw2]
+    rw [hmain]
+    simp
+
 
 end Props.C17
